@@ -171,6 +171,51 @@ def writers_of(P):
     return _WR[id(P)]
 
 
+def eq_summary(P, gk):
+    """[(j, '->field', k)]: on every path to the exit of function gk the field of the object behind parameter j equals
+    parameter k (stored there, or found equal by the branch taken).  Computed by a plain K4 run of the callee; only small
+    helpers that mention both are tried."""
+    cache = P.__dict__.setdefault('_eqsum', {})
+    if gk in cache:
+        return cache[gk]
+    cache[gk] = []
+    G = P.fn[gk]
+    if G.entry is None or G.exit is None or len(G.params) < 2 or len(G.blocks) > 80:
+        return []
+    pid = {p['id']: i for i, p in enumerate(G.params)}
+    cand = False
+    assigned = set()
+    for n, nd in G.ex.items():
+        if nd['k'] == 'assign' or (nd['k'] == 'un' and nd['op'] in ('pre++', 'pre--', 'post++', 'post--')):
+            l = G.ex[G.strip_casts(nd['c'][0])]
+            if l['k'] == 'ref' and l['decl'].get('id') in pid:
+                assigned.add(l['decl']['id'])
+            if nd['k'] == 'assign' and nd['op'] == '=' and l['k'] == 'member':
+                r = G.ex[G.strip_casts(nd['c'][1])]
+                if r['k'] == 'ref' and r['decl'].get('id') in pid:
+                    cand = True
+    if not cand:
+        return []
+    A = Analyzer(P, G)
+    A.run()
+    envs = list((A.block_in.get(G.exit) or {}).values())
+    if not envs:
+        return []
+    common = None
+    for env in envs:
+        eq = env.get('$eq') or {}
+        here = set()
+        for a, b in eq.items():
+            if b.startswith('v') and b[1:].isdigit() and int(b[1:]) in pid and int(b[1:]) not in assigned and '->' in a:
+                base, suffix = a[:a.index('->')], a[a.index('->'):]
+                if base.startswith('v') and base[1:].isdigit() and int(base[1:]) in pid and int(base[1:]) not in assigned \
+                        and suffix.count('->') == 1 and '[' not in suffix:
+                    here.add((pid[int(base[1:])], suffix, pid[int(b[1:])]))
+        common = here if common is None else (common & here)
+    cache[gk] = sorted(common or ())
+    return cache[gk]
+
+
 class Hooks:
     """client hooks; every attribute may stay None"""
     on_node = None          # (A, env, eid, value): after every evaluated node, all passes
@@ -1286,6 +1331,25 @@ class Analyzer:
                     self.havoc_reachable(env, self.rpath(a, env))
                 else:
                     self.havoc_fields(env, self.rpath(a, env), flds)
+        # what a helper establishes on every path between the object behind one parameter and another parameter
+        # (`vf->current_link=link`, or the branch that leaves them equal): known at the call site afterwards
+        if tg and len(tg) == 1 and tg[0] in self.P.fn and tg[0] != self.P.key(self.F):
+            for (j, suffix, kparam) in eq_summary(self.P, tg[0]):
+                if j >= len(args) or kparam >= len(args):
+                    continue
+                pj = self.rpath(args[j], env)
+                if not pj or pj.startswith('&'):
+                    continue
+                kj = pj + suffix
+                self.store(env, kj, avals[kparam])
+                ak = self.ex[self.F.strip_casts(args[kparam])]
+                if ak['k'] in ('ref', 'member') and not (ak['k'] == 'ref' and ak['decl'].get('kind') not in ('var', 'param')):
+                    kk = self.path(self.F.strip_casts(args[kparam]), env)
+                    if kk and kk != kj:
+                        eq = dict(env.get('$eq') or {})
+                        eq[kj] = kk
+                        eq[kk] = kj
+                        env['$eq'] = eq
         tr = int_type_range(nd.get('t', ''))
         return V(*tr) if tr else TOP
 
